@@ -15,7 +15,7 @@ ASSUMPTIONS = [
     "one observer (a1), one actor (a2), one computation (c1) and its replica; agents pre-registered on the directory before the history starts",
     "operations that the API rejects locally (e.g. unregistering an unknown computation) are skipped",
 ]
-BOUNDS = {"quick": "histories of <= 4 operations among 12 kinds (incl. the actor agent leaving and coming back), all interleavings with deliveries",
+BOUNDS = {"quick": "histories of <= 4 operations among 12 kinds (incl. the actor agent leaving and coming back), all interleavings with deliveries; per item kind (computation, replica, agent): histories of <= 4 operations with two callbacks of the observer on the same item (subscribe / unsubscribe each, item changes) after a drained prelude that makes the item known",
           "thorough": "histories of <= 5 operations (8.2 million interleaved paths)"}
 OUTSIDE = "more agents / computations, agent removal with hosted computations, subscribe_all_agents"
 CAP_S = {"quick": 900, "thorough": 7200}
@@ -24,8 +24,21 @@ OPS = ["sub_comp", "unsub_comp", "sub_rep", "unsub_rep", "sub_agent", "unsub_age
        "unreg_agent", "reg_agent"]
 
 
+TWO_CB = {
+    # several callbacks on the same item: a prelude (drained before the explored history) makes the item known, then the
+    # history interleaves two subscriptions of the observer, their removal one by one, and changes of the item
+    "rep": (["reg_comp", "reg_rep", "sub_comp"], ["sub_rep", "sub_rep2", "unsub_rep", "unsub_rep2", "unreg_rep", "reg_rep"]),
+    "comp": (["reg_comp"], ["sub_comp", "sub_comp2", "unsub_comp", "unsub_comp2", "unreg_comp", "reg_comp"]),
+    "agent": ([], ["sub_agent", "sub_agent2", "unsub_agent", "unsub_agent2", "unreg_agent", "reg_agent"]),
+}
+
+
 def jobs(tier):
-    return [{"name": "histories-%d" % n, "length": n} for n in ([4] if tier == "quick" else [4, 5])]
+    out = [{"name": "histories-%d" % n, "length": n} for n in ([4] if tier == "quick" else [4, 5])]
+    for k, (prelude, ops) in TWO_CB.items():
+        out.append({"name": "twocb-%s-%d" % (k, 4 if tier == "quick" else 5), "length": 4 if tier == "quick" else 5,
+                    "prelude": prelude, "ops": ops})
+    return out
 
 
 def run(eng, p):
@@ -47,8 +60,10 @@ def run(eng, p):
     bench.run(max_steps=50)
     bench.fixed_schedule = False
     events = []
-    cbs = {k: (lambda evt, item, val, _k=k: events.append((_k, evt, item, val))) for k in ("comp", "rep", "agent")}
-    subscribed = {"comp": False, "rep": False, "agent": False}
+    cbs = {k: (lambda evt, item, val, _k=k: events.append((_k, evt, item, val)))
+           for k in ("comp", "rep", "agent", "comp2", "rep2", "agent2")}
+    subscribed = {"comp": False, "rep": False, "agent": False, "comp2": False, "rep2": False, "agent2": False}
+    ops_allowed = p.get("ops") or OPS
     snapshot = {}
     hist = []
     n = eng.choose(p["length"], "length") + 1
@@ -65,7 +80,33 @@ def run(eng, p):
         except (UnknownComputation, UnknownAgent):
             return None
 
+    late_rep = [False]
+
+    def note_late_replica_notification():
+        if not subscribed["rep"] and not subscribed["rep2"]:
+            q = bench.channels.get(("_directory", "_discovery_a1"), ())
+            q2 = bench.channels.get(("_discovery_a1", "_directory"), ())
+            if any(getattr(m, "type", "") == "publish_replica" for m, _ in q) or \
+                    any(getattr(m, "type", "") == "subscribe_replica" and m.subscribe for m, _ in q2):
+                late_rep[0] = True
+
     def do_op(op):
+        if op.endswith("2"):
+            # the same operation with the observer's second callback
+            kind = op.split("_")[1][:-1]
+            k2 = kind + "2"
+            sub = {"comp": d1.subscribe_computation, "rep": d1.subscribe_replica, "agent": d1.subscribe_agent}[kind]
+            unsub = {"comp": d1.unsubscribe_computation, "rep": d1.unsubscribe_replica, "agent": d1.unsubscribe_agent}[kind]
+            item = "a2" if kind == "agent" else "c1"
+            if op.startswith("sub_"):
+                sub(item, cbs[k2]); subscribed[k2] = True; snapshot[k2] = (view(d1, kind), len(events))
+            else:
+                if not subscribed[k2]:
+                    raise PathCut()
+                unsub(item, cbs[k2]); subscribed[k2] = False
+                if kind == "rep":
+                    note_late_replica_notification()
+            return
         if op == "sub_comp":
             d1.subscribe_computation("c1", cbs["comp"]); subscribed["comp"] = True; snapshot["comp"] = (view(d1, "comp"), len(events))
         elif op == "unsub_comp":
@@ -78,6 +119,7 @@ def run(eng, p):
             if not subscribed["rep"]:
                 raise PathCut()
             d1.unsubscribe_replica("c1", cbs["rep"]); subscribed["rep"] = False
+            note_late_replica_notification()
         elif op == "sub_agent":
             d1.subscribe_agent("a2", cbs["agent"]); subscribed["agent"] = True; snapshot["agent"] = (view(d1, "agent"), len(events))
         elif op == "unsub_agent":
@@ -111,6 +153,14 @@ def run(eng, p):
                 raise PathCut()
             agent_up[0] = True
             d2.register_agent("a2", "addr_a2_bis")
+    for op in p.get("prelude", []):
+        do_op(op)
+        bench.fixed_schedule = True
+        bench.run(max_steps=bench.steps + 50)
+        bench.fixed_schedule = False
+    del events[:]
+    for k in list(snapshot):
+        snapshot[k] = (view(d1, k.rstrip("2")), 0)      # what the observer knows once the prelude is drained
     try:
         while True:
             en = bench.enabled()
@@ -122,7 +172,7 @@ def run(eng, p):
                 return
             t = choices[eng.choose(len(choices), "sched")]
             if t == "op":
-                op = OPS[eng.choose(len(OPS), "op_%d" % done_ops)]
+                op = ops_allowed[eng.choose(len(ops_allowed), "op_%d" % done_ops)]
                 if done_ops and op.startswith("sub") and hist and hist[-1] == op:
                     raise PathCut()
                 hist.append(op)
@@ -142,17 +192,19 @@ def run(eng, p):
         return
     final = {k: (view(d1, k), view(d_o, k)) for k in ("comp", "rep", "agent")}
     eng.notes["outcome"] = {"history": hist, "final": final, "subscribed": dict(subscribed)}
-    for k in ("comp", "rep", "agent"):
-        if not subscribed[k]:
+    for k0 in ("comp", "rep", "agent", "comp2", "rep2", "agent2"):
+        if not subscribed[k0]:
             continue
+        k = k0.rstrip("2")
         mine, ref = final[k]
         if k == "rep":
             mine, ref = mine or [], ref or []
         from harness.common import region
         regs = region(eng, "C20-replica-notification-unknown-computation", k == "rep" and view(d1, "comp") is None)
+        regs += region(eng, "C20-late-replica-notification-after-unsubscribe", k == "rep" and late_rep[0])
         eng.prove(mine == ref, "observer's view of a subscribed %s differs from the directory after all messages are drained"
                   % {"comp": "computation", "rep": "replica set", "agent": "agent"}[k], regions=regs, detail=str((hist, final)))
-        before, n_evt = snapshot[k]
+        before, n_evt = snapshot[k0]
         if before != (view(d1, k) if k != "rep" else (view(d1, k) or [])) and before is not None or (before is None and mine):
-            fired = any(e[0] == k for e in events[n_evt:])
+            fired = any(e[0] == k0 for e in events[n_evt:])
             eng.prove(fired, "subscription callback did not fire although the subscribed item changed", detail=str((hist, k, events)))
